@@ -82,11 +82,7 @@ impl<'a> W<'a> {
 }
 
 fn apply_function(w: &mut W, f: &Function, label: &str) {
-    let dims: Option<(usize, usize)> = match f {
-        Function::Sampled(_) | Function::PostScript { .. } => w.call(&format!("{}:dims", label), || (f.input_dim(), f.output_dim())),
-        Function::Interpolated(parts) => Some((1, parts.len())),
-        _ => Some((1, 1)),
-    };
+    let dims: Option<(usize, usize)> = w.call(&format!("{}:dims", label), || (f.input_dim(), f.output_dim()));
     if let Some((i, o)) = dims {
         if i > 64 || o > 64 {
             return;
